@@ -130,7 +130,15 @@ def grid_steps(ctx, block):
         T, cls, kk = R.expected_points(M, dt)
         if T is None:
             raise AssertionError(f"enumeration produced an undefined-zone pair {(M, dt)}")
-        p, d = _simulate(kind, route, M, dt, n_paths, dtype)
+        try:
+            p, d = _simulate(kind, route, M, dt, n_paths, dtype)
+        except Exception as e:      # a simulation of a valid (M, dt) must not raise; classify and go on
+            ctx.tick(1)
+            ctx.violation(site, f"raises:{type(e).__name__}",
+                          f"simulating M={M!r} [{form}, k={k}] with dt={dt!r} raised {type(e).__name__}: {str(e)[:200]} "
+                          f"({T} time points expected)", observed=repr(e)[:300], expected=T,
+                          block=dict(block, cases=[[M, dt, form, k]]))
+            continue
         if isinstance(p, list):     # every underlier of the derivative
             shapes = {f"{i}.{name}": tuple(b.shape) for i, u in enumerate(d.underliers()) for name, b in u.named_buffers()}
             want = {f"0.{n}" for n in market.BUFFERS[kind]} | {"1.spot"}
